@@ -166,9 +166,9 @@ inductive InOk (env : Env) (sup : Support) : Bool → TyName → Prop
   | optNamed (is n sd) : isOpaque env (.named n) = false → (is && decide (sd = .std)) = false →
       sup.option = true → InOk env sup is (.named n) → InOk env sup is (.opt (.named n) sd)
   | optPrim (is p sd) : (is && decide (sd = .std)) = false → sup.option = true → InOk env sup is (.opt (.prim p) sd)
-  | optStrs (is e s sd) : InOk env sup is (.opt (.strSlice e s) sd)
-  | optStr (is lt e s sd) : InOk env sup is (.strRef lt e s) → InOk env sup is (.opt (.strRef lt e s) sd)
-  | optSlice (is ltm p s sd) : InOk env sup is (.primSlice ltm p s) → InOk env sup is (.opt (.primSlice ltm p s) sd)
+  | optStrs (is e s sd) : sup.option = true → InOk env sup is (.opt (.strSlice e s) sd)
+  | optStr (is lt e s sd) : sup.option = true → InOk env sup is (.strRef lt e s) → InOk env sup is (.opt (.strRef lt e s) sd)
+  | optSlice (is ltm p s sd) : sup.option = true → InOk env sup is (.primSlice ltm p s) → InOk env sup is (.opt (.primSlice ltm p s) sd)
   | str (is lt e sd) : (lt = some .static → sup.staticSlices = true) → InOk env sup is (.strRef lt e sd)
   | strs (is e sd) : InOk env sup is (.strSlice e sd)
   | slice (is ltm p sd) : (ltm.map (·.1) = some .static → sup.staticSlices = true) → InOk env sup is (.primSlice ltm p sd)
@@ -305,15 +305,48 @@ theorem in_gate_iff (env : Env) (sup : Support) (is : Bool) (t : TyName) :
             · simp [hx] at h
           exact InOk.optPrim is p sd hs' hopt
       · intro h; cases h with | optPrim _ _ _ hs hopt => simp [inErrs, hs, hopt]
-    case strSlice e s => exact ⟨fun _ => InOk.optStrs is e s sd, fun _ => by simp [inErrs]⟩
+    case strSlice e s =>
+      constructor
+      · intro h
+        unfold inErrs at h
+        have hopt : sup.option = true := by
+          by_cases hx : sup.option = true
+          · exact hx
+          · simp [hx] at h
+        exact InOk.optStrs is e s sd hopt
+      · intro h; cases h with | optStrs _ _ _ _ hopt => simp [inErrs, hopt]
     case strRef lt e s =>
       constructor
-      · intro h; unfold inErrs at h; exact InOk.optStr is lt e s sd ((inErrs_str env sup is lt e s).mp h)
-      · intro h; cases h with | optStr _ _ _ _ _ hi => unfold inErrs; exact (inErrs_str env sup is lt e s).mpr hi
+      · intro h
+        unfold inErrs at h
+        simp only [List.append_eq_nil_iff] at h
+        have hopt : sup.option = true := by
+          by_cases hx : sup.option = true
+          · exact hx
+          · simp [hx] at h
+        exact InOk.optStr is lt e s sd hopt ((inErrs_str env sup is lt e s).mp h.2)
+      · intro h
+        cases h with
+        | optStr _ _ _ _ _ hopt hi =>
+          unfold inErrs
+          simp only [hopt, if_true, List.nil_append]
+          exact (inErrs_str env sup is lt e s).mpr hi
     case primSlice ltm p s =>
       constructor
-      · intro h; unfold inErrs at h; exact InOk.optSlice is ltm p s sd ((inErrs_slice env sup is ltm p s).mp h)
-      · intro h; cases h with | optSlice _ _ _ _ _ hi => unfold inErrs; exact (inErrs_slice env sup is ltm p s).mpr hi
+      · intro h
+        unfold inErrs at h
+        simp only [List.append_eq_nil_iff] at h
+        have hopt : sup.option = true := by
+          by_cases hx : sup.option = true
+          · exact hx
+          · simp [hx] at h
+        exact InOk.optSlice is ltm p s sd hopt ((inErrs_slice env sup is ltm p s).mp h.2)
+      · intro h
+        cases h with
+        | optSlice _ _ _ _ _ hopt hi =>
+          unfold inErrs
+          simp only [hopt, if_true, List.nil_append]
+          exact (inErrs_slice env sup is ltm p s).mpr hi
     all_goals exact ⟨fun h => by simp [inErrs] at h, fun h => by cases h⟩
   all_goals exact ⟨fun h => by simp [inErrs] at h, fun h => by cases h⟩
 
